@@ -26,6 +26,30 @@ PDB_TO_CIF = {
 }
 
 
+def key_alias(repo) -> Dict[str, str]:
+    """atom_data key -> PDB field, for keys that are not themselves PDB field names: such a key is identified by the columns the
+    formatter writes it to (`record_name` at columns 1-6 is the record type).  Keys named like a field stand for that field."""
+    sp = spec("pdb_columns.json")
+    try:
+        fi = repo.func(M, "_format_pdb_atom_line")
+        wenv: Dict[str, Any] = {}
+        kenv: Dict[str, str] = {}
+        widths.scan(fi.node.body, wenv, kenv)
+        lines = [s for s in fi.node.body if isinstance(s, ast.Assign) and norm(s.targets[0]) == "line" and isinstance(s.value, ast.JoinedStr)]
+        lay, total = widths.layout(lines[0].value, wenv, kenv)
+    except Exception:
+        return {"record_name": "record_type"}
+    keys = {k for k, a, b in lay}
+    out: Dict[str, str] = {}
+    for k, a, b in lay:
+        if k in sp["atom"]:
+            continue
+        for field, (lo, hi) in sp["atom"].items():
+            if (a, b) == (lo, hi) and field not in keys:
+                out[k] = field
+    return out or {"record_name": "record_type"}
+
+
 def formatter_layout(chk) -> Dict[str, Tuple[int, int]]:
     repo = chk.repo
     sp = spec("pdb_columns.json")
@@ -41,7 +65,7 @@ def formatter_layout(chk) -> Dict[str, Tuple[int, int]]:
     if not isinstance(total, int):
         chk.error("writer-layout", fi.site(lines[0]), f"width of `{total[0]}` not determined ({total[1]})")
         return {}
-    alias = {"record_name": "record_type"}
+    alias = key_alias(repo)
     got = {alias.get(k, k): (a, b) for k, a, b in lay}
     chk.expect(total == 80, "writer-layout", fi.site(lines[0]), "the formatted fields and gaps add up to 80 columns", f"the atom line adds up to {total} columns, not 80", K(fi, "total"), expected=80, found=total)
     for field, want in sp["atom"].items():
@@ -59,9 +83,13 @@ def formatter_layout(chk) -> Dict[str, Tuple[int, int]]:
     rets = [r for r in fi.node.body if isinstance(r, ast.Return)]
     chk.expect(len(rets) == 1 and norm(rets[0].value) == "line.ljust(80)", "writer-layout", fi.where, "the line is padded to exactly 80 characters", "the atom line is not returned as line.ljust(80)", K(fi, "ljust"))
     # writer widths vs reader slices (sibling agreement)
-    rd = line_slices(repo.func(M, "parse_pdb_atoms").node)
+    from checks import c08
+
+    rd, _how = c08.reader_slices(chk, "v2")
+    if _how == "none":
+        chk.error("writer-reader-columns", fi.where, "the columns parse_pdb_atoms takes its fields from could not be established")
     for field, g in got.items():
-        if field in sp["atom"]:
+        if field in sp["atom"] and _how != "none":
             chk.expect(rd.get(field) == g, "writer-reader-columns", fi.where, f"{field}: writer columns = reader slice {g}", f"{field}: writer puts it at {g}, reader takes {rd.get(field)}", f"{M}:columns:{field}", expected=list(g), found=list(rd.get(field)) if rd.get(field) else None)
     return got
 
@@ -266,10 +294,10 @@ def check_field_maps(chk) -> None:
     chk.note_function(wc)
     # write_pdb, PDB branch: identity
     pdb = extract_atom_data(wp, "PDB")
-    bad = {k: v for k, v in pdb.items() if v != [("record_type" if k == "record_name" else k)]}
+    alias = key_alias(repo)
+    bad = {k: v for k, v in pdb.items() if v != [alias.get(k, k)]}
     chk.expect(len(pdb) == 16 and not bad, "field-map-pdb", wp.where, "PDB rows: every atom_data field is read from the column of the same name", "write_pdb (PDB branch) reads a field from another column", K(wp, "pdb-branch"), found=bad or len(pdb))
     cif = extract_atom_data(wp, "mmCIF")
-    alias = {"record_name": "record_type"}
     bad = {}
     for k, srcs in cif.items():
         f = alias.get(k, k)
@@ -435,13 +463,33 @@ def check_reader(chk) -> None:
         if isinstance(s, ast.Assign) and norm(s.targets[0]) == "categorical_columns":
             cat = Folder(repo, M).try_fold(s.value)
     chk.expect(num == ["serial", "resSeq", "x", "y", "z", "occupancy", "tempFactor", "model"] and cat == ["record_type", "name", "altLoc", "resName", "chainID", "element", "charge"], "reader-types", fi.where, "numeric and categorical PDB columns as declared", "the typing of PDB columns changed (numeric/categorical lists)", K(fi, "types"))
-    opt = {}
-    for s in ast.walk(fi.node):
-        if isinstance(s, ast.Dict):
-            for k, v in zip(s.keys, s.values):
-                if isinstance(k, ast.Constant) and isinstance(v, ast.IfExp):
-                    opt[k.value] = norm(v)
-    chk.expect(sorted(opt) == ["altLoc", "charge", "element", "iCode"] and all(v.startswith("None if not ") for v in opt.values()), "null-agreement", fi.where, "blank optional PDB fields (altLoc, iCode, element, charge) read as None", "blank optional PDB fields are not read as None", K(fi, "blank-none"), found=opt)
+    # blank optional fields: the line loop evaluated on an ATOM line whose optional fields are blank
+    from checks import c08e
+    from sa.blockeval import Unknown
+
+    sp = spec("pdb_columns.json")
+    optional = ("altLoc", "iCode", "element", "charge")
+    try:
+        blank = c08e.pdb_line(sp, "ATOM", {k: v for k, v in c08e.ATOM_FIELDS.items() if k not in optional})
+        rec, _ = c08e.v2_decode(repo, blank)
+        full, _ = c08e.v2_decode(repo, c08e.pdb_line(sp, "ATOM", c08e.ATOM_FIELDS))
+        if rec is None or full is None:
+            chk.violation("null-agreement", fi.where, "an ATOM line with blank optional fields is not decoded at all", K(fi, "blank-none"))
+        else:
+            bad = {k: rec.get(k, "<absent>") for k in optional if rec.get(k, "<absent>") is not None}
+            lost = {k: full.get(k) for k in optional if full.get(k) in (None, "")}
+            chk.expect(not bad and not lost, "null-agreement", fi.where, "evaluated: blank optional PDB fields (altLoc, iCode, element, charge) read as None, filled ones as their text", f"blank optional PDB fields are not read as None: {bad}" if bad else f"filled optional fields are lost: {lost}", K(fi, "blank-none"), found=bad or lost)
+    except Unknown:
+        opt = {}
+        for s in ast.walk(fi.node):
+            if isinstance(s, ast.Dict):
+                for k, v in zip(s.keys, s.values):
+                    if isinstance(k, ast.Constant) and isinstance(v, ast.IfExp):
+                        opt[k.value] = norm(v)
+        if sorted(opt) == ["altLoc", "charge", "element", "iCode"] and all(v.startswith("None if not ") for v in opt.values()):
+            chk.ok("null-agreement", fi.where, "blank optional PDB fields (altLoc, iCode, element, charge) read as None")
+        else:
+            chk.error("null-agreement", fi.where, "how blank optional PDB fields are read could not be established (line loop not evaluable, pinned form not found)")
 
 
 def check_splitter(chk) -> None:
@@ -469,11 +517,22 @@ def run(chk) -> None:
     )
     chk.trusted = ["CPython ast", "mmcif writer/reader quoting and tokenising", "pandas dtype coercions", "wwPDB column table"]
     chk.assumptions = ["data fit PDB field widths (the statement's precondition)"]
-    chk.robust |= {"writer-layout", "writer-reader-columns", "charge-format", "cif-to-cif", "pdb-record-filter", "pdb-decode-v2", "pdb-slices-agree", "pdb-slices-v2", "value-domain", "null-agreement"}
+    chk.robust |= {"writer-layout", "writer-reader-columns", "charge-format", "cif-to-cif", "pdb-record-filter", "pdb-decode-v2", "pdb-slices-agree", "pdb-slices-v2", "value-domain", "null-agreement", "atom-data-keys"}
     formatter_layout(chk)
     check_formatter_details(chk)
-    check_other_lines(chk)
-    check_record_order(chk)
+    from checks import c09e
+
+    evaluated = False
+    try:
+        evaluated = c09e.check_write_pdb_eval(chk)  # record order, TER/MODEL lines and the write-read round trip, evaluated on representative tables
+    except AnalysisError:
+        raise
+    except Exception as ex:
+        chk.ok("write-pdb-eval", "-", f"evaluation of write_pdb failed internally ({type(ex).__name__}: {str(ex)[:60]}): the pinned-form rules decide")
+    if not evaluated:
+        check_other_lines(chk)
+        check_record_order(chk)
+    c09e.check_atom_data_keys(chk)
     check_field_maps(chk)
     check_reader(chk)
     check_splitter(chk)
